@@ -2,11 +2,15 @@
 import json
 from . import common, gen
 
-LEAN_TARGETS = ["TsrunVerif.Props.C02"]
+LEAN_TARGETS = ["TsrunVerif.Props.C02", "TsrunVerif.Props.C02Reset"]
 THEOREMS = ["TsrunVerif.Heap." + t for t in [
     "mem_rootsOf", "mem_succs", "collect_reach_iff", "collect_invisible", "collect_roots", "collect_idempotent",
-    "gc_transparent_step", "collect_exact", "reachable_keeps_contents", "inv_run"]]
+    "gc_transparent_step", "collect_exact", "reachable_keeps_contents", "inv_run"]] + \
+    ["TsrunVerif.ResetObj." + t for t in ["reset_is_fresh", "reset_forgets", "reset_history_invisible"]]
 ASSUMPTIONS = [
+    "M-Reset: a swept slot is reused, not freed; Gen/ResetFields.lean is regenerated on every run from src/value.rs (fields of struct JsObject, the assignments of impl Reset for JsObject, the literal of JsObject::new()); "
+    "reset_forgets: whatever state the dead object was left in, the reset slot equals the fresh object field by field (clear() of the property storage is the reviewed equivalent of PropertyStorage::new()). "
+    "The extractor is a regex-level reader; what the code that allocates INTO a reused slot overwrites afterwards is not modelled (it is exercised by the slot-history programs)",
     "the theorems are about M-Heap (tied to src/gc.rs by C13's correspondence): a collection is the identity on the sub-graph reachable from live guards. "
     "That the interpreter and its ~400 natives keep every object they still use reachable from a guard (root discipline) is NOT proved: it is searched for violations by running every "
     "generated program under all collection schedules and requiring identical outcomes",
@@ -36,7 +40,16 @@ SRC_PRE = ("const a: any[] = [1,2,3,4,5,6].map(v => ({v})); let n = 0; const J =
            "const M = () => { if (n++ === 1) { MUT; } J(); }; const sv = (x: any) => JSON.stringify(x, (k, v) => v === undefined ? 'U' : v);\n")
 SOURCE_MUTATION = [SRC_PRE.replace("MUT", m) + nat for nat in SRC_NATIVES for m in SRC_MUTS]
 
-TEMPLATES = SOURCE_MUTATION + [
+# slot history: objects left in every non-default state (sealed, frozen, non-extensible, null prototype, own prototype, exotic kinds, accessors,
+# private fields) become garbage; the objects allocated afterwards - in the reused slots when a collection ran - must be plain fresh ones
+SLOT_DIRTY = ["Object.seal({a: i})", "Object.freeze({a: i})", "Object.preventExtensions({a: i})", "Object.create(null)", "Object.create({inherited: i})", "[i, i]", "(() => i)",
+              "new Map([[i, i]])", "new Set([i])", "new Date(i)", "/x/g", "new (class { #p = i; q = 1; })()", "Object.defineProperty({}, 'k', {get() { return i; }})", "new Proxy({}, {})",
+              "Promise.resolve(i)", "(function* () { yield i; })()", "new Error('e' + i)", "Symbol('s' + i) && Object(Symbol('s' + i))", "new Number(i)", "Object.seal([i])", "Object.freeze(() => i)"]
+SLOT_PROBE = ("(() => { const r: any[] = []; for (let j = 0; j < 40; j++) { const o: any = KIND; o.fresh = j; r.push([Object.isSealed(o), Object.isFrozen(o), Object.isExtensible(o), Object.keys(o).join(), "
+              "o.fresh === j, Object.getPrototypeOf(o) === PROTO, typeof o, 'inherited' in o, 'k' in o, 'a' in o].join('/')); } return [...new Set(r)].join('|') + ':' + r.length; })()")
+SLOT_HISTORY = ["for (let round = 0; round < 3; round++) { for (let i = 0; i < 70; i++) { const d: any = %s; if (i %% 7 === 0) { churn(2); } } }\nchurn(3) + ':' + %s"
+                % (d, SLOT_PROBE.replace("KIND", k).replace("PROTO", pr)) for d in SLOT_DIRTY for k, pr in (("{}", "Object.prototype"), ("[]", "Array.prototype"), ("(() => 1)", "Function.prototype"))]
+TEMPLATES = SOURCE_MUTATION + SLOT_HISTORY + [
     # natives that accumulate results while calling back: the callback takes the accepted element out of the source, so the pending result is its only holder
     "const a: any[] = [1, 2, 3, 4].map(v => ({v, pad: [v]})); const r = a.filter((o, i) => { if (i > 0) { a[i - 1] = null; churn(40); } return true; }); churn(20); r.map(o => o.v + ':' + o.pad[0]).join(',')",
     "const a: any[] = [1, 2, 3, 4].map(v => ({v, pad: [v]})); const r = a.map((o, i) => { if (i > 0) { a[i - 1] = null; } churn(40); return {w: o.v, q: [o.v]}; }); churn(20); r.map(o => o.w + ':' + o.q[0]).join(',')",
@@ -87,6 +100,12 @@ TEMPLATES = SOURCE_MUTATION + [
     "const objs = [{n: 'b'}, {n: 'a'}, {n: 'c'}]; const sorted = [...objs].sort((x, y) => x.n < y.n ? -1 : 1); const idx = objs.findIndex(o => o.n === 'c'); churn(70); sorted.map(o => o.n).join('') + idx + objs.some(o => { churn(1); return o.n === 'a'; }) + objs.every(o => o.n.length === 1)",
     "function mk() { let count = 0; const hist: number[] = []; return {inc() { count++; hist.push(count); churn(4); return this; }, get: () => hist.join('')}; } const c = mk(); c.inc().inc().inc(); churn(100); c.get()",
 ]
+
+
+def pre_proof(ctx):
+    import os
+    rc, out = common.sh([os.path.join(common.ROOT, "bin", "extract")])
+    ctx.notes.append("bin/extract: " + out.strip())
 
 
 def schedules(tier):
